@@ -233,6 +233,12 @@ class PandasCheckBackend(BaseCheckBackend):
         if check_output.empty and check_output.dtype != bool:
             check_output = check_output.astype(bool)
 
+        if check_output.hasnans:
+            # nullable dtypes answer <NA> for null elements, which ``all()``
+            # skips: nulls that are not ignored fail the check, as they do
+            # for numpy dtypes (NaN > 0 is False)
+            check_output = check_output.fillna(False)
+
         return CheckResult(
             check_output,
             check_output.all(),
